@@ -2,7 +2,9 @@
    Only statements, `exact`, and Print Assumptions live here. *)
 From Coq Require Import List NArith Bool Arith.
 Import ListNotations.
-From Verif Require Import Facts_vm FramesM Frames_proofs Frames_lifo.
+From Verif Require Import Facts_vm FramesM FramesCodec Frames_proofs Frames_lifo Frames_sim Frames_term.
+From Verif Require Import Facts_vmrun VmRunM VmRun_proofs.
+Close Scope N_scope.
 
 (* Full statement: on every action tree (calls, defers of interpreted and
    native functions, native functions that call back a Scriggo function value,
@@ -16,8 +18,79 @@ Definition C12_statement : Prop :=
   forall (f : func) (n m : nat) r1 r2,
     vm_run n f = Some r1 -> go_run m f = Some r2 -> r1 = r2.
 
-(* The full statement is false of the code as it is; three independent
-   witnesses (each replayed on the real VM by the check, see KNOWN_FINDINGS). *)
+(* Proved for every tree the emitter can produce.  tree_ok f (a boolean,
+   Frames_sim.ok_fn) excludes only: `recover down` (OpRecover with a > 0)
+   anywhere else than as the whole body of a deferred function - the emitter
+   produces it only for `defer recover()` -; a panicking instruction (OpPanic, a
+   native function that panics) without an entry in the debug table of its
+   function - the emitter records the position of every Panic and CallNative
+   instruction.  Everything else is inside: calls and deferred calls of
+   functions and of native functions to any depth, native functions that panic,
+   call env.Stop or env.Fatal (deferred ones too), native functions that call
+   back a function value (nested VMs), panics inside deferred calls, recover()
+   at any place, `defer recover()`, explicit returns. *)
+Definition C12_statement_partial : Prop :=
+  forall f : func, tree_ok f = true ->
+  forall (n m : nat) r1 r2, vm_run n f = Some r1 -> go_run m f = Some r2 -> r1 = r2.
+
+Theorem C12_partial_holds : C12_statement_partial.
+Proof. exact frames_refine_go. Qed.
+Print Assumptions C12_partial_holds.
+
+(* Termination, on every tree (no hypothesis): the machine never runs out of a
+   fuel of vm_bound f = 8 * fsize f steps (fsize f = 1 + the number of
+   instructions of the tree); GoSpec never runs out of a fuel of fsize f. *)
+Theorem C12_vm_terminates :
+  forall (f : func) (n : nat), vm_bound f <= n -> vm_run n f <> None.
+Proof. exact vm_terminates. Qed.
+Print Assumptions C12_vm_terminates.
+
+Theorem C12_vm_bound_is : forall f, vm_bound f = 8 * fsize f.
+Proof. reflexivity. Qed.
+
+Theorem C12_go_total : forall (f : func) (m : nat), fsize f <= m -> go_run m f <> None.
+Proof. exact go_run_total. Qed.
+
+(* the fuel the extracted model is given by the correspondence is enough *)
+Theorem C12_model_fuel_enough : forall f, vm_run (vm_fuel f) f <> None.
+Proof. exact frames_case_fuel. Qed.
+
+(* the two together: on every tree of the theorem both end, with the same result *)
+Theorem C12_total :
+  forall f : func, tree_ok f = true ->
+  exists r, go_run (fsize f) f = Some r /\ forall n, vm_bound f <= n -> vm_run n f = Some r.
+Proof.
+  intros f Hok.
+  destruct (go_run (fsize f) f) as [r|] eqn:Hgo; [|exfalso; exact (go_run_total f (fsize f) (le_n _) Hgo)].
+  exists r. split; [reflexivity|]. intros n Hn.
+  destruct (vm_run n f) as [r1|] eqn:Hvm; [|exfalso; exact (vm_terminates f n Hn Hvm)].
+  f_equal. exact (frames_refine_go f Hok n (fsize f) r1 r Hvm Hgo).
+Qed.
+Print Assumptions C12_total.
+
+(* The trees tree_ok excludes are not programs: on them the model of the
+   machine and GoSpec can differ, which says nothing about the code (they are
+   why the statement over the whole tree type stays unproved).  A function
+   whose body is `recover down` called as an ordinary function from a
+   deferred call run by the panic sequence; a panic without debug line
+   followed by an instruction that has one (newPanic then takes the line of
+   the following instruction). *)
+Definition w_excluded_recover_down : func :=
+  mkfunc [IDeferFn [ICall [IRecover true] []] []; IPanic 1] [(1, 2%N)].
+Definition w_excluded_no_line : func := mkfunc [IPanic 1; INat (NBody 2)] [(1, 5%N)].
+
+Theorem C12_excluded_trees :
+  (tree_ok w_excluded_recover_down = false /\
+   vm_run 60 w_excluded_recover_down = Some (ONil, []) /\
+   go_run 60 w_excluded_recover_down = Some (OPanic [(1%N, false, Some 2%N)], [])) /\
+  (tree_ok w_excluded_no_line = false /\
+   vm_run 60 w_excluded_no_line = Some (OPanic [(1%N, false, Some 5%N)], []) /\
+   go_run 60 w_excluded_no_line = Some (OPanic [(1%N, false, None)], [])).
+Proof. vm_compute. repeat split; reflexivity. Qed.
+
+(* The full statement was false of the code: four independent witnesses, each
+   a recorded finding, now repaired (the trees are kept, with the positive
+   statements, and replayed on the real VM by the check as regressions). *)
 Definition w_native_defer_panic : func := mkfunc [IDeferNat (NPanic 1)] [].
 Definition w_stale_recovered : func :=
   mkfunc [IDeferFn [IPanic 5] [(0, 4%N)]; IDeferFn [IRecover false] []; IPanic 2] [(2, 9%N)].
@@ -26,29 +99,53 @@ Definition w_dropped_panic : func :=
           IDeferFn [IPanic 1] [(0, 11%N)]; IPanic 3] [(2, 13%N)].
 
 (* a panic that leaves a function called back by native code: Go unwinds through
-   the native frame and the caller can recover it; the VM makes Run panic with
-   the text of the chain (known finding callback-panic-is-fatal) *)
+   the native frame and the caller can recover it; the VM made Run panic with
+   the text of the chain (former finding callback-panic-is-fatal) *)
 Definition w_callback_panic : func :=
   mkfunc [IDeferFn [IRecover false] []; ICallback [IPanic 7] [(0, 3%N)]] [].
+Definition w_callback_chain : func :=
+  mkfunc [IDeferFn [ICallback [ICallback [IDeferFn [IRecover false; IPanic 4] [(1, 8%N)]; IPanic 3] [(1, 9%N)]] []] [];
+          IPanic 1] [(1, 12%N)].
 
-Theorem C12_refuted : ~ C12_statement.
-Proof. exact frames_refine_spec_refuted. Qed.
-Print Assumptions C12_refuted.
+(* repaired (fix 6756254): the panic of a deferred native function is an
+   ordinary panic, when the function returns and while another panic unwinds
+   (second tree: it aborts the first panic and is recovered); the former
+   witness of native-defer-panic-host-panic now agrees with Go *)
+Definition w_native_defer_unwinding : func :=
+  mkfunc [IDeferFn [IRecover false] []; IDeferNat (NPanic 1); IPanic 2] [(2, 5%N)].
 
-Theorem C12_refuted_stale_recovered :
-  vm_run 40 w_stale_recovered = Some (OPanic [(5, false, Some 4); (2, true, Some 9)]%N, [ERecover (Some 2%N)]) /\
+Theorem C12_native_defer_panic_repaired :
+  (vm_run 10 w_native_defer_panic = Some (OPanic [(1%N, false, None)], []) /\
+   go_run 10 w_native_defer_panic = Some (OPanic [(1%N, false, None)], [])) /\
+  (vm_run 40 w_native_defer_unwinding = Some (ONil, [ERecover (Some 1%N)]) /\
+   go_run 40 w_native_defer_unwinding = Some (ONil, [ERecover (Some 1%N)])).
+Proof. exact (conj native_defer_panic_repaired native_defer_panic_unwinding_repaired). Qed.
+
+(* repaired (fix 7a741c2): a panic recovered by a deferred call leaves the chain when that
+   call returns, also when the function has other deferred calls; the former
+   witness of recovered-panic-stays-in-chain now agrees with Go *)
+Theorem C12_stale_recovered_repaired :
+  vm_run 40 w_stale_recovered = Some (OPanic [(5, false, Some 4)]%N, [ERecover (Some 2%N)]) /\
   go_run 40 w_stale_recovered = Some (OPanic [(5, false, Some 4)]%N, [ERecover (Some 2%N)]).
-Proof. exact stale_recovered_witness. Qed.
+Proof. exact stale_recovered_repaired. Qed.
 
-Theorem C12_refuted_dropped_panic :
-  vm_run 60 w_dropped_panic = Some (OPanic [(3, false, Some 13)]%N, [ERecover (Some 4%N)]) /\
+(* repaired (fix cda9c95): an aborted panic stays in the chain until the panic
+   that aborted it is recovered, and a recovery removes the recovered panic and
+   the aborted ones after it only; the former witness of
+   nested-recover-drops-active-panic now agrees with Go *)
+Theorem C12_dropped_panic_repaired :
+  vm_run 60 w_dropped_panic = Some (OPanic [(1, false, Some 11); (3, false, Some 13)]%N, [ERecover (Some 4%N)]) /\
   go_run 60 w_dropped_panic = Some (OPanic [(1, false, Some 11); (3, false, Some 13)]%N, [ERecover (Some 4%N)]).
-Proof. exact dropped_panic_witness. Qed.
+Proof. exact dropped_panic_repaired. Qed.
 
-Theorem C12_refuted_callback_panic :
-  vm_run 40 w_callback_panic = Some (OCbPanic [(7, false)]%N, []) /\
-  go_run 40 w_callback_panic = Some (ONil, [ERecover (Some 7%N)]).
-Proof. exact callback_panic_witness. Qed.
+(* repaired (fix 34a254c): the PanicError of a callback is raised as it is through
+   the native function; the calling VM links its own panics after it *)
+Theorem C12_callback_panic_repaired :
+  (vm_run 40 w_callback_panic = Some (ONil, [ERecover (Some 7%N)]) /\
+   go_run 40 w_callback_panic = Some (ONil, [ERecover (Some 7%N)])) /\
+  (vm_run 80 w_callback_chain = Some (OPanic [(4, false, Some 8); (3, true, Some 9); (1, false, Some 12)]%N, [ERecover (Some 3%N)]) /\
+   go_run 80 w_callback_chain = Some (OPanic [(4, false, Some 8); (3, true, Some 9); (1, false, Some 12)]%N, [ERecover (Some 3%N)])).
+Proof. exact (conj callback_panic_repaired callback_chain_repaired). Qed.
 
 (* What is proved, for every tree / every state of the machine.  The trees
    include callbacks: Stop, Fatal and panics inside a Scriggo function that a
@@ -76,9 +173,9 @@ Print Assumptions C12_fatal_propagates.
 (* (2b) the same through callbacks, on the code path of callable.Value: the
    error of a Stop or Fatal raised inside the VM of a callback reaches Run
    unchanged (no step of a suspended VM runs in between: the machine ends at
-   once, whatever the stack of suspended VMs), and a panic that is not
-   recovered inside the callback ends the run with OCbPanic whatever the
-   callers have deferred *)
+   once, whatever the stack of suspended VMs); a panic that is not recovered
+   inside the callback goes on in the calling VM, at its call instruction,
+   with the panics of the callback before those of the caller *)
 Theorem C12_callback_stop_fatal_pass_through :
   forall s f k,
     smode s = MExec -> sfn s = Some f -> fetch f (spc s) = Some (INat k) ->
@@ -86,15 +183,33 @@ Theorem C12_callback_stop_fatal_pass_through :
     (forall v, k = NFatal v -> exists tr, step s = Fin (ORunPanics v) (EFatal v :: tr) /\ tr = str s).
 Proof. exact callback_stop_fatal_pass_through. Qed.
 
-Theorem C12_callback_panic_is_fatal :
-  forall s p c, souter s <> [] -> schain s = p :: c ->
-    finish s = Fin (OCbPanic (cb_view (p :: c))) (str s).
-Proof. exact callback_panic_is_fatal. Qed.
+Theorem C12_callback_panic_propagates :
+  forall s p c sv rest fr frs,
+    souter s = sv :: rest -> schain s = p :: c -> vcalls sv = fr :: frs ->
+    finish s = Next (mkstate (MNext (length (vcalls sv ++ [mkframe (CFn (vfn sv)) 0 Panicked]))) None (vpc sv)
+                             (vcalls sv ++ [mkframe (CFn (vfn sv)) 0 Panicked])
+                             ((p :: c) ++ vchain sv) (str s) (sraised s) rest).
+Proof. exact callback_panic_propagates. Qed.
 
 Theorem C12_callback_returns_to_caller :
   forall s sv rest, souter s = sv :: rest -> schain s = [] ->
     finish s = Next (mkstate MExec (Some (vfn sv)) (vpc sv) (vcalls sv) (vchain sv) (str s) (sraised s) rest).
 Proof. exact callback_returns_to_caller. Qed.
+
+(* (2c) VM.Run itself, whatever the context of the run (none, live, cancelled
+   or expired): the error of runFunc that comes from env.Stop(err) makes Run
+   return err itself, the one of env.Fatal(v) makes Run panic with v, a
+   PanicError is returned as it is (the error of the output when its message is
+   a failed write), nil gives nil.  run_action is read from the decision table
+   that gofacts obtains by executing the statements of VM.Run (Facts_vmrun): a
+   change of VM.Run that looks at the context first changes the table and
+   breaks this obligation. *)
+Theorem C12_run_stop_fatal_any_context :
+  forall ctx, In ctx ctx_states ->
+    run_action 3 ctx = Some 2%N /\ run_action 2 ctx = Some 4%N /\ run_action 0 ctx = Some 1%N /\
+    run_action 1 ctx = Some 3%N /\ run_action 5 ctx = Some 6%N.
+Proof. exact vmrun_documented. Qed.
+Print Assumptions C12_run_stop_fatal_any_context.
 
 (* (3) The chain Run returns: the next links go from the newest panic to the
    oldest (strictly decreasing serial numbers of raising). *)
@@ -128,10 +243,9 @@ Proof. exact recover_search_nearest. Qed.
 Theorem C12_panic_position :
   forall s f ins v,
   smode s = MExec -> sfn s = Some f -> fetch f (spc s) = Some ins -> panics_with ins v ->
-  (exists s', step s = Next s' /\
-     schain s' = mkprec v false (debug_line f (spc s)) (sraised s) :: schain s) \/
-  (exists tr, step s = Fin (OPanic ((v, false, debug_line f (spc s)) :: chain_view (schain s))) tr) \/
-  (exists tr, souter s <> [] /\ step s = Fin (OCbPanic ((v, false) :: cb_view (schain s))) tr).
+  (exists s' rest, step s = Next s' /\
+     schain s' = mkprec v false false (debug_line f (spc s)) (sraised s) :: schain s ++ rest) \/
+  (exists tr rest, step s = Fin (OPanic ((v, false, debug_line f (spc s)) :: chain_view (schain s ++ rest))) tr).
 Proof. exact panic_position. Qed.
 Print Assumptions C12_panic_position.
 
